@@ -489,7 +489,7 @@ impl Reduce {
     ) -> Self {
         // assert!(Split::from_iter(named_exprs.clone()).len()==1);
         let (schema, aggregate) = Reduce::schema_aggregate(named_aggregate, &group_by, &input);
-        let size = Reduce::size(&input);
+        let size = Reduce::size(&input, &group_by);
         Reduce {
             name,
             aggregate,
@@ -548,10 +548,11 @@ impl Reduce {
     }
     /// Compute the size of the reduce
     /// The size of the reduce can be the same as its input and will be at least 0
-    fn size(input: &Relation) -> Integer {
+    fn size(input: &Relation, group_by: &[Column]) -> Integer {
         input.size().max().map_or_else(
             || Integer::from_min(0),
-            |&max| Integer::from_interval(0, max),
+            // Without grouping keys there is one row, even when the input is empty
+            |&max| Integer::from_interval(0, if group_by.is_empty() { max.max(1) } else { max }),
         )
     }
     /// Get aggregate exprs
